@@ -7,7 +7,7 @@
                   dead / caller-allocated / handed-over block
    chunks_ok    = every chunk stored through the jchuff.c STORE_BUFFER protocol is < BUFSIZE bytes *)
 From Coq Require Import List ZArith.
-From LJT Require Import gen.GenDest model.Dest model.WorstCase proofs.DestProofs proofs.WorstCaseProofs.
+From LJT Require Import gen.GenDest model.Dest model.WorstCase proofs.DestProofs proofs.DestLeak proofs.WorstCaseProofs.
 Import ListNotations.
 Local Open Scope Z_scope.
 
@@ -55,6 +55,13 @@ Theorem C13_reuse_safe : forall c hs, good_cfg c ->
   w_ok (run c hs) = true -> forallb hop_chunks_ok hs = true -> lib_clean (run c hs) = true.
 Proof. exact reuse_safe_all. Qed.
 Print Assumptions C13_reuse_safe.
+
+(* (3b) ... and every block the library allocated is freed by it (once: C13_reuse_safe) or handed to
+   the caller: after every history no live library block is left unhanded *)
+Theorem C13_no_leak : forall c hs, good_cfg c ->
+  w_ok (run c hs) = true -> forallb hop_chunks_ok hs = true -> leaked (w_heap (run c hs)) = [].
+Proof. exact no_leak_all. Qed.
+Print Assumptions C13_no_leak.
 
 (* the two destination managers of the tree are instances (cfg_tj reads the F2 rule from the source) *)
 Theorem C13_instances : good_cfg cfg_tj /\ good_cfg cfg_ijg.
@@ -105,3 +112,11 @@ Theorem C13_worstcase_witness : exists w h blocks bytes,
   scan_bytes blocks = Some bytes /\ tj3JPEGBufSize w h tjsamp_gray < bytes.
 Proof. exact worstcase_witness. Qed.
 Print Assumptions C13_worstcase_witness.
+
+(* non-vacuity: the hypotheses of (1)-(4) hold for non-trivial histories (growth, reuse of a grown
+   buffer with *jpegSize = 0, NOREALLOC success, caller frees) *)
+Example C13_hypotheses_satisfiable :
+  let hs := [bigcall; HSetSize 0; bigcall; HFreeBuf; HAlloc 300 false; HCall false [chunk 200; PByte 1]; HFreeBuf] in
+  w_ok (run cfg_tj hs) = true /\ forallb hop_chunks_ok hs = true /\
+  w_ok (run cfg_ijg [bigcall; HAlloc 10 false; HCall true [chunk 25]]) = true.
+Proof. vm_compute. repeat split. Qed.
